@@ -60,6 +60,8 @@ def job_parts(job):
         text, fns = "score(x) + 1", make_score(i)
     elif k == 6:     # deeply parenthesised: needs the interpreter's raised recursion limit
         text, fns = "(" * DEEP + "x + %d" % (100 + i) + ")" * DEEP, None
+    elif k == 7:     # no bindings at all
+        return "[%d, %d + 1].map(v, v * 2)" % (20 * i, 20 * i), {}, None
     else:
         text, fns = EXPRS[k] % (100 + i, 100 + i), None
     bind = {"x": ct.IntType(5 + i), "s": ct.StringType("s" * (i + 1)), "name": ct.StringType("p%d-db" % (100 + i)),
@@ -434,7 +436,8 @@ def tlc_interleavings(ctx, progs, name):
 
 PAIRS_QUICK = [(("I", 0, 0), ("I", 1, 1)), (("C", 0, 0), ("C", 1, 1)), (("C", 2, 2), ("C", 3, 3)), (("I", 2, 2), ("C", 0, 3)),
                (("C", 4, 1), ("C", 4, 2)), (("I", 4, 1), ("I", 4, 2)), (("C", 3, 4), ("I", 4, 5)),
-               (("C", 5, 1), ("C", 5, 2)), (("I", 5, 1), ("I", 5, 2)), (("C", 5, 3), ("C", 5, 4)), (("I", 6, 1), ("I", 6, 2)), (("C", 6, 1), ("I", 6, 2))]
+               (("C", 5, 1), ("C", 5, 2)), (("I", 5, 1), ("I", 5, 2)), (("C", 5, 3), ("C", 5, 4)), (("I", 6, 1), ("I", 6, 2)), (("C", 6, 1), ("I", 6, 2)),
+               (("C", 7, 1), ("C", 7, 2)), (("I", 7, 1), ("C", 7, 2))]
 
 
 def run(ctx: Ctx) -> int:
@@ -443,7 +446,7 @@ def run(ctx: Ctx) -> int:
     total_sched = 0
     pairs = list(PAIRS_QUICK)
     if not q:
-        pairs += [((r1, k1, 1), (r2, k2, 2)) for r1 in "IC" for r2 in "IC" for k1 in range(7) for k2 in range(7) if (r1, k1) <= (r2, k2)]
+        pairs += [((r1, k1, 1), (r2, k2, 2)) for r1 in "IC" for r2 in "IC" for k1 in range(8) for k2 in range(8) if (r1, k1) <= (r2, k2)]
     # two kinds of thread body: the whole lifecycle (environment, compile, program, evaluate) and evaluate() alone
     for mode in ("lifecycle", "evaluate"):
         for a, b in pairs:
